@@ -65,18 +65,30 @@ def showMqtt (fl : Flags) (unit : Str) (lib : Nat) (r : MqttRec) : String :=
     (if ts.isEmpty then "-" else ",".intercalate ts) ++
     s!" st=x{toHex r.statusText} ok={match r.okay with | some b => b2s b | none => "-"} " ++ showText fl (mqttCalls unit r)
 
-def runMqtt (fl : Flags) (unit : Str) : MSt → List Step → List String
-  | _, [] => []
-  | m, s :: ss =>
+/-- One step: the new entries of the event history are scanned with `scanObs` (the calls one event causes do not
+    depend on the calls made before: `scanObs_out_split`), the calls applied to the record. -/
+def scanNew (tbl : List Rotonda.MqttConn.QMsg) : Scan × MqttRec → List Rotonda.MqttConn.Obs → Scan × MqttRec
+  | acc, [] => acc
+  | (sc, r), o :: os =>
+    let sc' := scanObs tbl { sc with out := [] } o
+    scanNew tbl ({ sc' with out := [] }, r.applyAll sc'.out) os
+
+def runMqtt (fl : Flags) (unit : Str) : MSt → Scan × MqttRec → Option (Nat × MqttRec × String) → List Step → List String
+  | _, _, _, [] => []
+  | m, acc, prev, s :: ss =>
     let m' := m.step fl.v s
-    let sc := scan m'.tbl m'.st.log
-    showMqtt fl unit sc.lib (MqttRec.zero.applyAll sc.out) :: runMqtt fl unit m' ss
+    let acc' := scanNew m'.tbl acc (m'.st.log.drop m.st.log.length)
+    -- a step that changes nothing is shown as the step before (same record, same text)
+    let shown := match prev with
+      | some (l, r, t) => if l == acc'.1.lib && r == acc'.2 then t else showMqtt fl unit acc'.1.lib acc'.2
+      | none => showMqtt fl unit acc'.1.lib acc'.2
+    shown :: runMqtt fl unit m' acc' (some (acc'.1.lib, acc'.2, shown)) ss
 
 def caseMqtt (fl : Flags) (u cs ss : String) : String :=
   match u.toNat?, (cs.splitOn ";").mapM parseCfg, (ss.splitOn ";").mapM parseStep with
   | some u, some cfgs, some steps =>
     let fin := MSt.run fl.v cfgs steps
-    " ; ".intercalate (runMqtt fl (unitNames.getD u []) (MSt.init cfgs) steps)
+    " ; ".intercalate (runMqtt fl (unitNames.getD u []) (MSt.init cfgs) (Scan.zero, MqttRec.zero) none steps)
       ++ s!" ; wf={b2s (openedWhileDown false fin.st.log)}"
   | _, _, _ => "bad-case"
 
